@@ -1605,7 +1605,8 @@ fn check_group_case(c: &mut Case, s: &GroupSpec) {
             if item == "doodad_refs" {
                 // not among the lists the statement names: observed and tallied, never a violation
                 let g = got.get(item).map(|x| x.as_str()).unwrap_or(empty);
-                c.count(if g == want[item] { "extra_doodad_refs_equal|walker" } else { "extra_doodad_refs_differ|walker" }, 1);
+                let unreached = !got.contains_key(item) && ferr.is_some() && want[item] != empty;
+                c.count(if unreached { "extra_doodad_refs_unreached_after_framing_break|walker" } else if g == want[item] { "extra_doodad_refs_equal|walker" } else { "extra_doodad_refs_differ|walker" }, 1);
                 continue;
             }
             match got.get(item) {
